@@ -19,6 +19,7 @@ CONSTANTS
   Serialized = FALSE
   DirectAPI = FALSE
   MaxLen = 200
+  Wanted = {}
 CHECK_DEADLOCK FALSE
 VIEW state
 ACTION_CONSTRAINT CoarseSchedule
